@@ -13,7 +13,7 @@ F = lambda *p: ("f", tuple(p))
 OP = lambda op, a, b: ("op", op, a, b)
 
 SLOT_TYPES = ["u8", "i8", "u16", "i16be", "bcd8", "u32", "enum8", "inner", "dyn", "pars", "bitsT", "anon",
-              "arr_u8x2", "arr_auto", "arr_i16x2", "arr_inner", "f32", "bcd16", "u64", "senum8", "arr_bits"]
+              "arr_u8x2", "arr_auto", "arr_i16x2", "arr_inner", "f32", "bcd16", "u64", "senum8", "arr_bits", "i32"]
 STARTS = ["const", "off", "next", "next+1", "off+1", "overlap", "prevval", "2*off+1"]
 CONDS = ["always", "tag==1", "tag==2", "off<3", "flg", "flg&&tag==1", "flg||tag==1", "present_prev", "tag==5",
          "param", "prev==7", "tag!=0&&len==1", "prev==7&&tag==1", "tag==1&&prev==7", "prev==7||tag==1",
@@ -21,14 +21,14 @@ CONDS = ["always", "tag==1", "tag==2", "off<3", "flg", "flg&&tag==1", "flg||tag=
 CONDALL = ["none", "tag==1", "off<3"]
 ATTRS = ["none", "req<100", "req!=0", "skip", "emit"]
 VIRTS = ["none", "x+1", "10-x", "alias", "nested_inv", "const", "bool", "max", "choice", "x+1_req", "cond_virt",
-         "alias_nested", "k+x", "x*2"]
+         "alias_nested", "k+x", "x*2", "neg", "abs"]
 SREQS = ["none", "tag!=3", "len<=off"]
 PARAMS = ["none", "uint4", "int4", "enum"]
 
 DEFAULT_SIZE = {"u8": 1, "i8": 1, "u16": 2, "i16be": 2, "bcd8": 1, "u32": 4, "enum8": 1, "inner": 2, "dyn": 3, "pars": 2,
                 "bitsT": 1, "anon": 1, "arr_u8x2": 2, "arr_auto": None, "arr_i16x2": 4, "arr_inner": 4, "f32": 4,
-                "bcd16": 2, "u64": 8, "senum8": 1, "arr_bits": 2}
-INT_SCALARS = {"u8", "i8", "u16", "i16be", "bcd8", "u32", "bcd16", "u64"}
+                "bcd16": 2, "u64": 8, "senum8": 1, "arr_bits": 2, "i32": 4}
+INT_SCALARS = {"u8", "i8", "u16", "i16be", "bcd8", "u32", "bcd16", "u64", "i32"}
 
 
 class Program(object):
@@ -120,6 +120,8 @@ def program(ch, menu=None):
         size_expr = C(size) if size is not None else F("len")
         if st == "u8":
             typ = ("UInt", None)
+        elif st == "i32":
+            typ = ("Int", None)
         elif st == "i8":
             typ = ("Int", None)
         elif st == "u16":
@@ -286,6 +288,10 @@ def program(ch, menu=None):
         v = A.Field("v", expr=OP("+", C(5), X))
     elif vk == "x*2":
         v = A.Field("v", expr=OP("*", X, C(2)))
+    elif vk == "neg":
+        v = A.Field("v", expr=("neg", X))
+    elif vk == "abs":
+        v = A.Field("v", expr=("?:", OP("<", X, C(0)), ("neg", X), X))
     if v is not None:
         fields.append(v)
     wk = pick(["none", "v*2", "v+len"], "virt1")
@@ -365,7 +371,7 @@ def referenced_names(struct):
     return acc
 
 
-PAYLOAD = [0x00, 0xFF, 0x99, 0x5A]
+PAYLOAD = [0x00, 0xFF, 0x99, 0x80]
 THRESH = [0x00, 0x01, 0x04, 0x06, 0x07, 0x08, 0x31, 0x63, 0x64, 0x80, 0xFF]
 
 
